@@ -225,6 +225,8 @@ def evaluate(rows, model_ok, want):
                     exp += "1" if info.get(n) in keys else "0"
             if ex["is"] != exp:
                 out["is"].append((r, v, o, ex["is"], exp, names))
+            if ex.get("foreign") == "true":
+                out["is"].append((r, v, o, "errors.Is(report, <an unrelated error>) = true", "false", ["io.EOF", "context.Canceled", "context.DeadlineExceeded", "errors.New(…)", "a ValidationError with another Path/Type"]))
             for k in ("fn", "bg", "fnbg"):
                 if k in ex and ex[k] != o:
                     out["wrappers"].append((r, v, o, k, ex[k]))
